@@ -235,6 +235,17 @@ pub fn scripted_suite(rng: &mut Pcg64Mcg, count: usize, max_steps: u64) -> Vec<R
             req.inner = 100;
             req.convergence = None;
         }
+        // moves of an ulp or two (step sizes near machine precision), every one rejected after a few
+        // accepted ones: the undo is exact however small the move was
+        let ulp = k % 20 == 7;
+        if ulp {
+            kind = 0;
+            req.kt_start = 0.;
+            req.max_step = [1e-15, 4e-16, 3e-15][(k / 20) % 3];
+            req.steps = u64::min(max_steps, 300);
+            req.inner = 50;
+            req.convergence = None;
+        }
         let climb = k % 20 == 17;
         if climb {
             kind = 9;
@@ -258,6 +269,8 @@ pub fn scripted_suite(rng: &mut Pcg64Mcg, count: usize, max_steps: u64) -> Vec<R
             let (s, tail) = random_script(rng, req.steps as usize);
             let (s, tail) = if long {
                 ("BBBBBwB".to_string(), 'W')
+            } else if ulp {
+                ("BBWWBWWW".to_string(), 'W')
             } else if stale {
                 // (length 61 selects the score scale 1: 'v' is worse by 1e-10)
                 ("U".repeat(17) + &"vB".repeat(22), 'v')
